@@ -37,12 +37,12 @@ def rebin(a, newshape):
     '''
     assert len(a.shape) == len(newshape)
 
-    slices = [slice(0, old, float(old) / new)
-              for old, new in zip(a.shape, newshape)]
-    coordinates = np.mgrid[slices]
-    # choose the biggest smaller integer index
-    indices = coordinates.astype('i')
-    return a[tuple(indices)]
+    # choose the biggest smaller integer index, floor(i * old / new), in integer
+    # arithmetic: a grid built with a float step (numpy.mgrid) has one point too
+    # many for some sizes, e.g. 50 points for 49 steps of 1/49
+    indices = [(np.arange(new) * old) // new
+               for old, new in zip(a.shape, newshape)]
+    return a[np.ix_(*indices)]
 
 
 def stf_kolmogorov(r):
